@@ -171,6 +171,8 @@ func init() {
 		}
 		return nil
 	})
+	p("vOr", func(fr *frame, a []value) value { return fr.i.orv(a[0], a[1]) })
+	p("vAnd", func(fr *frame, a []value) value { return fr.i.andv(a[0], a[1]) })
 	p("vStub", func(fr *frame, a []value) value {
 		fr.i.ps.stubs[fr.primName(a[0])] = true
 		return nil
